@@ -109,11 +109,24 @@ class GateReplacer(Visitor):
         return self.visit(macro.body)
 
     def visit_BlockStatement(self, block: BlockStatement):
+        new_statements = []
+        for stmt in block.statements:
+            new_stmt = self.visit(stmt)
+            if (
+                isinstance(new_stmt, BlockStatement)
+                and new_stmt.parallel == block.parallel
+                and not new_stmt.subcircuit
+            ):
+                # Same normalization as in MacroExpander: a macro called
+                # from a macro expands into the calling block.
+                new_statements.extend(new_stmt.statements)
+            else:
+                new_statements.append(new_stmt)
         return BlockStatement(
             parallel=block.parallel,
             subcircuit=block.subcircuit,
             iterations=self.visit(block.iterations),
-            statements=[self.visit(stmt) for stmt in block.statements],
+            statements=new_statements,
         )
 
     def visit_LoopStatement(self, loop: LoopStatement):
